@@ -5,7 +5,7 @@ From Coq Require Import List NArith ZArith Bool Decimal DecimalPos DecimalZ.
 From AMS Require Import RtTables.
 Import ListNotations.
 
-Definition str := list N.
+Notation str := (list N) (only parsing).
 
 Definition str_eqb (a b : str) : bool :=
   (fix go (a b : str) : bool :=
